@@ -114,6 +114,14 @@ pub fn main_entry() -> i32 {
 }
 
 /// case index recorded in a replay file (all engines store it under replay.case.index)
+/// the "leg" recorded in a replay file's case tag, if any
+pub fn replay_leg(args: &Args) -> Option<String> {
+  let p = args.replay.as_ref()?;
+  let s = std::fs::read_to_string(p).ok()?;
+  let v: serde_json::Value = serde_json::from_str(&s).ok()?;
+  Some(v["replay"]["case"]["leg"].as_str().or_else(|| v["replay"]["case"]["case"]["leg"].as_str()).unwrap_or("").to_string())
+}
+
 pub fn replay_index(args: &Args) -> Option<u64> {
   let p = args.replay.as_ref()?;
   let s = std::fs::read_to_string(p).ok()?;
